@@ -385,4 +385,33 @@ example : ∃ ch parsed, canonChoices exWb.choices = some ch ∧ parseDoc exText
     convert_document_ids exWb exText ex_convert (fun d hd => namesClean_of_B ex_clean d hd)
   exact ⟨ch, parsed, h1, h2, h3⟩
 
+
+open Pyxv.Choices in
+/-- `convert_document_ids` with the F42 guard stated on the cells: when no `list_name` cell of the (canonical)
+    choices sheet contains TAB / LF / CR (or another character an attribute value cannot carry), the ids an XML
+    reader sees on the `<instance>` children of `<model>` are exactly the list names, pairwise distinct. -/
+theorem convert_ids_distinct_from_cells (wb : Workbook) (text : Str) (h : convert wb false = .ok text)
+    (hn : ∀ doc, convertDoc wb = .ok doc → noBrTree doc = true)
+    (hcells : ∀ ch, canonChoices wb.choices = some ch → ∀ r ∈ ch, ∀ v, lookup listKey r = some v → v.all attrCharOk = true) :
+    ∃ ch parsed, canonChoices wb.choices = some ch ∧ parseDoc text = some parsed ∧
+      secondaryIds (eproj parsed) = Spec.listNames listKey ch ∧ (secondaryIds (eproj parsed)).Nodup := by
+  obtain ⟨ch, parsed, hch, hp, hids, hnd⟩ := convert_document_ids wb text h hn
+  have hg : ∀ l ∈ Spec.listNames listKey ch, normAttrVal l = l :=
+    C09.list_names_from_cells listKey ch (fun v => normAttrVal v = v)
+      (fun r hr v hv => normAttrVal_ok v (hcells ch hch r hr v hv))
+  refine ⟨ch, parsed, hch, hp, ?_, hnd hg⟩
+  rw [hids, List.map_congr_left hg, List.map_id']
+
+example : ∃ ch parsed, canonChoices exWb.choices = some ch ∧ parseDoc exText = some parsed ∧
+    secondaryIds (eproj parsed) = Choices.Spec.listNames Choices.listKey ch ∧ (secondaryIds (eproj parsed)).Nodup :=
+  convert_ids_distinct_from_cells exWb exText ex_convert (fun d hd => namesClean_of_B ex_clean d hd)
+    (by
+      intro ch hch r hr v hv
+      have key : (match canonChoices exWb.choices with
+          | some ch => ch.all (fun r => (lookup Choices.listKey r).all (fun v => v.all attrCharOk))
+          | none => true) = true := by decide +kernel
+      rw [hch] at key
+      have := List.all_eq_true.mp key r hr
+      simpa [hv] using this)
+
 end Pyxv.ConvertC09
